@@ -36,7 +36,7 @@ func genC11(rng *rand.Rand) c11Case {
 		c.Rev = 3
 	}
 	c.JSONP = rng.IntN(5) == 0
-	c.Scenario = []string{"overlap-poll", "overlap-data", "pending-close", "abort-poll", "abort-data", "ack-order", "octet-v4", "mix", "mix", "mix"}[rng.IntN(10)]
+	c.Scenario = []string{"overlap-poll", "overlap-data", "pending-close", "abort-poll", "abort-data", "ack-order", "octet-v4", "bad-body", "mix", "mix", "mix"}[rng.IntN(11)]
 	c.Cause = append(append([]string(nil), closeCauses...), "client-close-packet", "client-close-packet")[rng.IntN(len(closeCauses)+2)]
 	if c.Scenario == "mix" {
 		n := 4 + rng.IntN(16)
@@ -261,6 +261,38 @@ func runC11(c c11Case, rng *rand.Rand, r *rep.Report) (key, msg string, stats ma
 				stats["octet_stream_posts_on_v4"]++
 				if !x.Done() {
 					key, msg = "c11-refused-data-request-not-answered", fmt.Sprintf("a revision-4 data request with Content-Type application/octet-stream got no response (session %s)", sock.ReadyState())
+					x.Abort()
+					return
+				}
+			case "bad-body":
+				// the body of a data request cannot be read to its end although the connection stays
+				// alive: chunked transfer with a malformed chunk-size line after the first chunk, or a
+				// declared length longer than what arrives before the client half-closes.  Whatever
+				// the transport makes of the payload, the request is owed exactly one response.
+				target := base
+				var head string
+				if rng.IntN(2) == 0 {
+					head = "POST " + target + " HTTP/1.1\r\nHost: engine\r\nContent-Type: text/plain;charset=UTF-8\r\nTransfer-Encoding: chunked\r\n\r\n6\r\n4hello\r\n" + []string{"zz\r\n", "-1\r\n", "ffffffffffffffffff\r\n", "5;ext\r\n4wor"}[rng.IntN(4)]
+				} else {
+					head = "POST " + target + " HTTP/1.1\r\nHost: engine\r\nContent-Type: text/plain;charset=UTF-8\r\nTransfer-Encoding: chunked\r\n\r\n6\r\n4hello\r\n5\r\n4w"
+				}
+				truncated := strings.HasSuffix(head, "4w") || strings.HasSuffix(head, "4wor")
+				x := w.Start(rig.ReqSpec{Method: "POST", RawHead: head})
+				if (truncated || rng.IntN(2) == 0) && x.Conn != nil {
+					// the client has nothing more to say but still reads (a body that merely pauses is
+					// not an unreadable body: the server rightly goes on waiting for it)
+					time.Sleep(time.Millisecond)
+					rig.Wait()
+					// net/http cannot tell a half-closed client from one that is gone: from here on the
+					// request counts as aborted by its client (it may be answered or not, never twice)
+					aborted[lastReqID()] = true
+					x.Conn.CloseWrite()
+				}
+				time.Sleep(5 * time.Second)
+				rig.Wait()
+				stats["data_requests_with_unreadable_body"]++
+				if !x.Done() {
+					key, msg = "c11-refused-data-request-not-answered", fmt.Sprintf("a data request whose chunked body cannot be read to its end (the connection stays open) got no response within 5 s (session %s)", sock.ReadyState())
 					x.Abort()
 					return
 				}
